@@ -14,6 +14,7 @@ SET_PARENT_ENSURES = [
     ('parent_set', 'self._parent is value'),
     ('traversal_cleared', 'implies(value is not None, self._traversal_parent is None)'),
     ('none_only_unlinks', 'implies(value is None, self._traversal_parent is old(self._traversal_parent))'),
+    ('segment_last_index', 'implies(value is not None, seg_last_ok(value, self))'),
 ] + guard('value is not None', real_attach(SP, 'self'), 'attached')
 
 SET_PARENT_MODIFIES = ['self._parent', 'self._traversal_parent', 'value.children.list[]', 'value.children.indexes{}',
@@ -67,7 +68,8 @@ ADD_ENSURES = (
      ('fresh.traversal_cleared', 'implies(%s, obj._traversal_parent is None)' % ADD_C),
      ('linked.links_kept', 'implies(%s, obj._traversal_parent is old(obj._traversal_parent))' % ADD_A),
      ('traversal.only_traversal_index', 'implies(%s, %s)' % (ADD_B, ADD_TRAV_APPENDED)),
-     ('traversal.links_kept', 'implies(%s, obj._parent is old(obj._parent) and obj._traversal_parent is self)' % ADD_B)])
+     ('traversal.links_kept', 'implies(%s, obj._parent is old(obj._parent) and obj._traversal_parent is self)' % ADD_B),
+     ('segment_last_index', 'seg_last_ok(self, obj)')])
 
 ADD_MODIFIES = ['self.children.list[]', 'self.children.indexes{}', 'idx_list(self.children, obj.name)[]',
                 'self.children.traversal_indexes{}', 'tidx_list(self.children, obj.name)[]', 'obj._parent',
@@ -111,6 +113,7 @@ contract(
          appended(lambda i: 'tidx_item(value.children, self.name, %s)' % i, 'tidx_len(value.children, self.name)', 'self') +
          ' and dict_same_except(value.children.traversal_indexes, self.name) and '
          'list_unchanged(value.children.list) and dict_unchanged(value.children.indexes))'),
+        ('segment_last_index', 'implies(value is not None, seg_last_ok(value, self))'),
     ],
     raises={n: {'when': 'value is not None'} for n in ('ChildNotValid', 'ChildNotFound', 'MaxChildLimitReached', 'OperationNotAllowed')},
     modifies=['self._traversal_parent', 'value.children.traversal_indexes{}', 'tidx_list(value.children, self.name)[]',
@@ -118,3 +121,25 @@ contract(
     allocates=['La.R', 'Ll'],
     properties=['C10', 'C11'],
 )
+
+# ---- the overrides of add(), each proved against the interface contract above (refinement by restating it)
+contract('hl7apy.core:Element.add[impl]', sig={'self': 'Element', 'obj': 'Element'}, returns='none', exact_self=True,
+         requires=['sep(self.children)', 'self.children.element is self'], ensures=ADD_ENSURES, raises=ADD_RAISES,
+         modifies=ADD_MODIFIES, allocates=['La.R', 'Ll'], properties=['C09', 'C10', 'C11', 'C12'])
+
+contract('hl7apy.core:Segment.add', sig={'self': 'Segment', 'obj': 'Element'}, returns='none', exact_self=True,
+         requires=['sep(self.children)', 'self.children.element is self',
+                   # Segment.add parses the field number out of the name: <SEG>_<n>, three-letter segment ids
+                   'implies(obj.name is not None and strlen(obj.name) > 0 and self.allow_infinite_children, int_ok(substr_from(obj.name, 4)))'],
+         ensures=[c for c in ADD_ENSURES if c[0] != 'segment_last_index'] + [
+             ('last_index', 'implies(obj.name is not None and strlen(obj.name) > 0 and self.allow_infinite_children, '
+                            'self._last_child_index == (int_val(substr_from(obj.name, 4)) '
+                            'if int_val(substr_from(obj.name, 4)) > old(self._last_child_index) else old(self._last_child_index)))'),
+             ('last_index_kept', 'implies(not (obj.name is not None and strlen(obj.name) > 0 and self.allow_infinite_children), '
+                                 'self._last_child_index == old(self._last_child_index))')],
+         raises=ADD_RAISES, modifies=ADD_MODIFIES[:-1] + ['self._last_child_index'], allocates=['La.R', 'Ll'],
+         properties=['C02', 'C09', 'C10', 'C12'])
+
+contract('hl7apy.core:SubComponent.add', sig={'self': 'SubComponent', 'obj': 'any'}, returns='none',
+         ensures=[('never_returns', 'False')], raises={'OperationNotAllowed': {}}, raises_only=['OperationNotAllowed'],
+         modifies=[], allocates=False, properties=['C10', 'C12'])
